@@ -389,6 +389,9 @@ def gen_case(R, focus=None, max_side=400, max_tiles=260):
     }
     if case["pix"]["kind"] == "huge" and R.random() < 0.7:
         case["stats"] = True  # statistics of huge values are the point of that class
+    # something already sits at the destination path (a product regenerated in place): the produced file must be the
+    # new image and nothing else
+    case["preexisting"] = R.choice([None, None, None, "short", "long"])
     return case
 
 
@@ -619,6 +622,11 @@ def write_case(case, T):
     path = os.path.join(_scratch(), f"c05-{os.getpid()}-{next(_counter)}.tif")
     w = Written(case, path, ref, gbox)
     w.close()
+    pre = case.get("preexisting")
+    if pre:
+        with open(path, "wb") as f:
+            f.write(b"II*\x00 previous product at this path " * (3 if pre == "short" else 40000))
+        T.cls("destination_existed_" + pre)
     try:
         fut = save_cog_with_dask(xx, path, **writer_kwargs(case))
         rr = compute_with_schedule(fut, case["sched"])
@@ -938,6 +946,7 @@ def check_structure(pages, case, H, W, what="file"):
     """Statement clauses that only need IFD sizes and tile sizes.  Returns list of (Hk, Wk, th, tw, planes)."""
     S = case["ns"]
     n = len(pages) - 1
+    require(len(pages) >= 1, "%s: no image directory (IFD) found - not a readable TIFF", what)
     dims = []
     for k, p in enumerate(pages):
         th, tw = int(p.tilelength), int(p.tilewidth)
